@@ -15,7 +15,7 @@ DOM = dict(
     phi=[0.0, 0.7, 1.5707963267948966, 3.141592653589793, -2.0], q=[-1.0, 0.0, 0.01, 0.5, 2.0, 20.0, 1e9],
     pz=[-1.0, 0.0, 0.5, 2.0, 50.0, 1e4], density=[-1.0, 0.0, 1.0, 2.7],
     compound=['H2O', 'Ca5(PO4)3F', 'SiO2', 'Pb0.5Sn1.5', 'Water, Liquid', 'Air, Dry (near sea level)', 'Bone, Compact (ICRU)',
-              'Xx', 'H2(', '', None, 'Rf', 'C6H12O6', 'Gadolinium Oxysulfide', '(Fe2O3)0.3(SiO2)0.7', 'U'])
+              'Xx', 'H2(', '', None, 'Rf', 'C6H12O6', 'Gadolinium Oxysulfide', '(Fe2O3)0.3(SiO2)0.7', 'U', 'Caf\u00e9', 'H2O\u00b2', '\u00c5ngstr\u00f6m'])
 PDOM = [0.0, 1.5, 1234.5]
 CRYSTALS = ['Si', 'Ge', 'Diamond', 'GaAs', 'InSb', 'LiF', 'Beryl', 'Muscovite', 'AlphaQuartz', 'Graphite', 'nope', None]
 
@@ -67,8 +67,8 @@ def build_queries(L, rng, per_fn):
         add(r, s)
     # episodes on a caller-owned crystal array (puremon request 2001): init + add a user crystal that shares a built-in name,
     # optionally Crystal_ReadFile of a well-formed / corrupt-but-openable / missing / duplicate-defining file, look-ups, free
-    ua = np.zeros(5 * 4, execlib.REQ); ua['fn'] = 2001; ua['s'] = -1
-    ua['i'][:, 0] = np.repeat(np.arange(5), 4); ua['i'][:, 1] = np.tile(np.arange(4), 5)
+    ua = np.zeros(7 * 4, execlib.REQ); ua['fn'] = 2001; ua['s'] = -1        # variants 5, 6: an empty file, a file without any definition
+    ua['i'][:, 0] = np.repeat(np.arange(7), 4); ua['i'][:, 1] = np.tile(np.arange(4), 7)
     reqs.append(ua)
     # the three catalogue listings (2002-2004) and Crystal_ArrayInit (2005; with INT_MAX the one call that fails for want of memory)
     ls = np.zeros(3, execlib.REQ); ls['fn'] = [2002, 2003, 2004]; ls['s'] = -1
@@ -298,6 +298,9 @@ def _check_report(ck, rep, where, config, fresh=False):
                      dict(report=rep, config=config, where=where))
     if rep.get('answers_changed_on_same_object'):
         ck.violation('c16:answer-on-same-object-depends-on-queries-in-between', 'd-spacing / Bragg angle / structure factor of one crystal object changed after other queries on it (%d episodes)' % rep['answers_changed_on_same_object'],
+                     dict(report=rep, config=config, where=where))
+    if rep.get('open_descriptors_before', 0) != rep.get('open_descriptors_after', 0):
+        ck.violation('c16:open-file-descriptors-changed', 'the process holds %r open descriptors after the calls, %r before' % (rep.get('open_descriptors_after'), rep.get('open_descriptors_before')),
                      dict(report=rep, config=config, where=where))
     if rep['errors_changed']:
         ck.violation('c16:error-object-changed-later', 'an error object returned earlier was modified by later calls', dict(report=rep, config=config, where=where))
